@@ -154,6 +154,21 @@ CHECKS["C06"] = dict(
     technique="Lean 4 proof (patch theorem: telescoping flux sums over a closed element fan, on the element model tied to the code in C03) + closed-form families executed on the real mesher / solvers / post-processor",
 )
 
+CHECKS["C10"] = dict(
+    category="proof",
+    text=("Translator tools/translate_units.py regenerates Generated/Units.lean on every run: all twelve length-unit tables of "
+          "the three solvers and the post-processors as exact rationals. Properties/C10.lean decides over the whole table that "
+          "they are the same six lengths in mm / cm / m (any edited entry breaks the obligation) and proves the scaling laws "
+          "of the element model tied to the code in C03: planar stiffness scale-free, areas s^2, source terms s^2, hence "
+          "boundary-driven potentials invariant and source-driven potentials ~ s^2. Decided on the REAL tools by metamorphic "
+          "runs: one drawing per (physics, drive mode, planar / axisymmetric / harmonic) declared with the same numbers in "
+          "all six units — mesh files byte-identical, coordinates reported in the declared unit, nodal values, point values, "
+          "block integrals (energy, area, volume) and conductor / circuit properties related to the metres run by the "
+          "dimensional law (observed agreement 1e-12)."),
+    design_ref="DESIGN.md section 3, C10",
+    technique="translator-regenerated unit tables + Lean 4 proof (decide over the tables, ring/field_simp scaling laws) + six-unit metamorphic runs on the real tools",
+)
+
 NOT_YET = "check not built yet in this round; planned per DESIGN.md section 3 (Lean model + correspondence)"
 
 
